@@ -6,7 +6,7 @@ patch applied (and undo). Stores everything under /verif/seeded/<prop>-<k>/ with
 import subprocess, sys, os, json, shutil, re
 prop, k = sys.argv[1], sys.argv[2]
 props = [prop] + [a for a in sys.argv[3:] if not a.startswith('--')]
-rnd = 'r2-' if '--r2' in sys.argv else ''
+rnd = 'r2-' if '--r2' in sys.argv else ('r3-' if '--r3' in sys.argv else '')
 src = '/tmp/seedout/%s%s/%s' % (rnd, prop, k)
 wt = '/tmp/wt/scratch'
 env = dict(os.environ, GOFLAGS='-mod=mod', GOPROXY='off', GOSUMDB='off', GOTOOLCHAIN='local'); env.pop('GOWORK', None)
@@ -49,7 +49,9 @@ test_pkgs = sorted(set(pkgs) | set(demo_pkgs))
 ok = True; tout = ''
 for p in test_pkgs:
     cwd, pp = modcwd(p)
-    rc, out = run(['go', 'test'] + modflag(p) + ['-count=1', '-timeout', '20m', pp], cwd=cwd)
+    for attempt in range(3):  # fixed-port tests (devserver :6060) collide with other test runs on this machine: retry
+        rc, out = run(['go', 'test'] + modflag(p) + ['-count=1', '-timeout', '20m', pp], cwd=cwd)
+        if rc == 0: break
     tout += out[-400:]
     if rc != 0: ok = False
 res['existing_tests_with_change'] = 'PASS' if ok else 'FAIL: ' + tout[-600:]
